@@ -5,25 +5,55 @@ go 1.23
 require (
 	github.com/expr-lang/expr v1.16.9
 	github.com/go-playground/validator/v10 v10.22.0
+	github.com/spf13/viper v1.19.0
 	golang.org/x/tools v0.29.0
 )
 
 require (
+	github.com/fsnotify/fsnotify v1.7.0 // indirect
 	github.com/gabriel-vasile/mimetype v1.4.3 // indirect
 	github.com/go-playground/locales v0.14.1 // indirect
 	github.com/go-playground/universal-translator v0.18.1 // indirect
+	github.com/hashicorp/hcl v1.0.0 // indirect
 	github.com/leodido/go-urn v1.4.0 // indirect
+	github.com/magiconair/properties v1.8.7 // indirect
+	github.com/mitchellh/mapstructure v1.5.0 // indirect
+	github.com/pelletier/go-toml/v2 v2.2.2 // indirect
+	github.com/sagikazarmark/slog-shim v0.1.0 // indirect
+	github.com/spf13/afero v1.11.0 // indirect
+	github.com/spf13/cast v1.6.0 // indirect
+	github.com/spf13/pflag v1.0.5 // indirect
+	github.com/subosito/gotenv v1.6.0 // indirect
 	golang.org/x/crypto v0.21.0 // indirect
 	golang.org/x/mod v0.22.0 // indirect
 	golang.org/x/net v0.34.0 // indirect
 	golang.org/x/sync v0.10.0 // indirect
 	golang.org/x/sys v0.29.0 // indirect
 	golang.org/x/text v0.16.0 // indirect
+	gopkg.in/ini.v1 v1.67.0 // indirect
+	gopkg.in/yaml.v3 v3.0.1 // indirect
 )
 
 replace (
+	github.com/fsnotify/fsnotify => github.com/fsnotify/fsnotify v1.7.0
+	github.com/hashicorp/hcl => github.com/hashicorp/hcl v1.0.0
+	github.com/magiconair/properties => github.com/magiconair/properties v1.8.7
+	github.com/mitchellh/mapstructure => github.com/mitchellh/mapstructure v1.5.0
+	github.com/pelletier/go-toml/v2 => github.com/pelletier/go-toml/v2 v2.2.2
+	github.com/sagikazarmark/locafero => github.com/sagikazarmark/locafero v0.4.0
+	github.com/sagikazarmark/slog-shim => github.com/sagikazarmark/slog-shim v0.1.0
+	github.com/sourcegraph/conc => github.com/sourcegraph/conc v0.3.0
+	github.com/spf13/afero => github.com/spf13/afero v1.11.0
+	github.com/spf13/cast => github.com/spf13/cast v1.6.0
+	github.com/spf13/pflag => github.com/spf13/pflag v1.0.5
+	github.com/subosito/gotenv => github.com/subosito/gotenv v1.6.0
+	go.uber.org/atomic => go.uber.org/atomic v1.9.0
+	go.uber.org/multierr => go.uber.org/multierr v1.9.0
 	golang.org/x/crypto => golang.org/x/crypto v0.21.0
+	golang.org/x/exp => golang.org/x/exp v0.0.0-20230905200255-921286631fa9
 	golang.org/x/net => golang.org/x/net v0.23.0
 	golang.org/x/sys => golang.org/x/sys v0.18.0
 	golang.org/x/text => golang.org/x/text v0.16.0
+	gopkg.in/ini.v1 => gopkg.in/ini.v1 v1.67.0
+	gopkg.in/yaml.v3 => gopkg.in/yaml.v3 v3.0.1
 )
